@@ -18,11 +18,20 @@ L3: the property's clauses evaluated on the real trace (no model involved):
                   decision budget (or, SHA, the failure it observed last)
     reference     the published ASHA / median rule evaluated on the trace history never continues where the
                   implementation stops
+    Numeric objectives are compared in the extended order -inf < finite < +inf (a diverged run reports -inf; both
+    infinities are `numbers.Number`s and competitors like any other); nan has no order and is not generated.
+    "Competitors recorded at that budget" of an evaluation that failed LATER: the property text does not say whether
+    they still count (SuccessiveHalving withdraws them, Median keeps them), so sha-topk / reference are evaluated under
+    both readings and raised only when they fail under both; best-survives uses the reading with more competitors.
+search(ck): called when the correspondence (or a proof) broke and `run` found no failing input: typed small worlds on
+    the real code around the disagreeing scenarios, judged with the same oracle (see `search`).
 """
 import copy
 import itertools
 import json
+import math
 import os
+import time
 from concurrent.futures import ProcessPoolExecutor
 from fractions import Fraction
 from numbers import Number
@@ -158,7 +167,14 @@ def enc_obj(o):
     if isinstance(o, (bool, np.bool_)):
         return rat(int(o))
     if isinstance(o, Number):
-        return rat(int(o)) if isinstance(o, (int, np.integer)) else rat(float(o))
+        if isinstance(o, (int, np.integer)):
+            return rat(int(o))
+        f = float(o)
+        if math.isinf(f):
+            return "inf" if f > 0 else "-inf"      # the two ordered non-finite floats (ERat.posInf / ERat.negInf)
+        if math.isnan(f):
+            return "nan"                           # never generated; a changed tree may store one (compared as text)
+        return rat(f)
     return {"F": str(o)}
 
 
@@ -172,7 +188,9 @@ def norm_md(md):
         return None
     out = {}
     for k, v in md.items():
-        if isinstance(v, str):
+        if isinstance(v, str) and v in ("inf", "-inf", "nan"):
+            out[k] = v
+        elif isinstance(v, str):
             f = common.unrat(v)
             out[k] = f"{f.numerator}/{f.denominator}"
         else:
@@ -195,8 +213,8 @@ class Runner:
     """protocol-level run on the real code: budgets 1,2,3,…, record then stopped, halted jobs are skipped.
     steps = [(job, budget, objective, decision, metadata of the acting job after the step)]"""
 
-    def __init__(self, P, curves):
-        self.P, self.curves = P, curves
+    def __init__(self, P, curves, light=False):
+        self.P, self.curves, self.light = P, curves, light    # light: decisions only (no accessor views, no per-step metadata)
         self.R = Real(P)
         self.nobs, self.halted = [], []
         self.trace, self.steps, self.wire_events, self.events = [], Steps(), [], []
@@ -206,7 +224,7 @@ class Runner:
         self.R.add()
         self.nobs.append(0)
         self.halted.append(False)
-        self.trace.append({"r": None, "md": self.R.md(0)})
+        self.trace.append({"r": None, "md": None if self.light else self.R.md(0)})
         self.wire_events.append(["add"])
         self.events.append(["add"])
 
@@ -233,6 +251,12 @@ class Runner:
             self.trace.append({"r": e, "md": md})
             self.steps.append((j, b, o, e, md))
             return
+        if self.light:
+            d = R.stop(j)
+            if d is not False:
+                self.halted[j] = True
+            self.steps.append((j, b, o, d, None))
+            return
         v = R.view(j)
         self.raw.setdefault(j, []).append(o)
         obs = v.pop("_observations")
@@ -252,9 +276,9 @@ class Runner:
         return self.trace, self.R.final(), self.steps, self.wire_events
 
 
-def run_proto_real(P, curves, events):
+def run_proto_real(P, curves, events, light=False):
     """events: ["add"] | ["step", j]; the n-th step of job j observes curves[j][n] at budget n+1."""
-    rn = Runner(P, curves)
+    rn = Runner(P, curves, light)
     for ev in events:
         if ev[0] == "add":
             rn.add()
@@ -284,6 +308,29 @@ def run_script_real(P, script):
 
 def is_num(o):
     return isinstance(o, Number)
+
+
+def is_inf(o):
+    return isinstance(o, Number) and not isinstance(o, bool) and math.isinf(float(o))
+
+
+def xnum(o):
+    """a numeric objective in the extended order -inf < finite < +inf: exact Fraction, or the float infinity
+    (Python compares and adds Fractions and float infinities exactly: `Fraction(1, 2) < inf`, `inf + Fraction(...) == inf`)"""
+    f = float(o)
+    return f if math.isinf(f) else Fraction(o)
+
+
+def median_ref(comp):
+    """median of a sorted list in the extended order -> (value, upper middle); value None = undefined (the two middle
+    values are -inf and +inf: any number is a median)"""
+    n = len(comp)
+    if n % 2:
+        return comp[n // 2], comp[n // 2]
+    a, b = comp[n // 2 - 1], comp[n // 2]
+    if isinstance(a, float) and isinstance(b, float) and a != b:
+        return None, b
+    return (a + b) / 2, b
 
 
 def decision_budget(P, r):
@@ -342,10 +389,10 @@ def oracle(P, steps, final=None):
         if is_num(o):
             others = [v for (jj, v) in seen.get(b, []) if jj != j and is_num(v)]
             live_others = [v for (jj, v) in seen.get(b, []) if jj != j and is_num(v) and jj not in failed]
-            q = Fraction(o)
+            q = xnum(o)
             early = d is True and b < ms
             if kind == "median" or (kind == "sha" and P.get("min_competing", 0) == 0):
-                if early and all(Fraction(v) <= q for v in others):
+                if early and all(xnum(v) <= q for v in others):
                     bad.append(("best-survives", {"step": idx, "job": j, "budget": b, "objective": o, "others_at_budget": others}))
             # competitors "recorded at that budget": the implementation forgets the rung entries of evaluations
             # that failed later (SHA rewrites them, Median keeps them); the clauses are only raised when they fail
@@ -356,7 +403,7 @@ def oracle(P, steps, final=None):
                 for comp_others in variants:
                     n = len(comp_others) + 1
                     k = max(1, n // P.get("rf", 3))
-                    better = sum(1 for v in comp_others if Fraction(v) > q)
+                    better = sum(1 for v in comp_others if xnum(v) > q)
                     res.append((better >= k, {"n": n, "k": k, "better": better}))
                 if not any(ok for ok, _ in res):
                     bad.append(("sha-topk", {"step": idx, "job": j, "budget": b, "objective": o, **res[0][1]}))
@@ -366,7 +413,7 @@ def oracle(P, steps, final=None):
                 ref_stop = False
                 if r is not None:
                     for comp_others in variants:
-                        comp = sorted([Fraction(v) for v in comp_others] + [q])
+                        comp = sorted([xnum(v) for v in comp_others] + [q])
                         if kind == "sha":
                             if P.get("min_fully_completed", 0) == 0 or _fully_completed(steps[: idx + 1], ms) >= P.get("min_fully_completed", 0):
                                 if len(comp) < P.get("min_competing", 0):
@@ -376,9 +423,9 @@ def oracle(P, steps, final=None):
                                     ref_stop = ref_stop or not (q + eps >= comp[-k])
                         else:
                             if len(comp) >= P.get("min_competing", 10):
-                                n = len(comp)
-                                med = comp[n // 2] if n % 2 else (comp[n // 2 - 1] + comp[n // 2]) / 2
-                                ref_stop = ref_stop or not (q + eps >= med)
+                                med, upper = median_ref(comp)
+                                # an undefined median (middle values -inf, +inf) prunes nothing that reaches the upper one
+                                ref_stop = ref_stop or not (q + eps >= (upper if med is None else med))
                 if not ref_stop:
                     bad.append(("reference", {"step": idx, "job": j, "budget": b, "objective": o, "rung": r}))
         seen.setdefault(b, []).append((j, o))
@@ -395,7 +442,16 @@ def _fully_completed(steps, ms):
     return sum(1 for (_, b, o, d, _) in steps if d is True and is_num(o) and b >= ms)
 
 
-def fingerprint(P, clause):
+def has_inf(case):
+    """input-class predicate of a (shrunk) case: some recorded objective is -inf / +inf (the shrinker first tries
+    to replace them by finite values beyond the range of the others, so the tag survives only where it matters)"""
+    if not case:
+        return False
+    vals = [plain(v) for cur in case.get("curves", []) for v in cur] + [plain(e[3]) for e in case.get("script", []) if e[0] == "rec"]
+    return any(is_inf(v) for v in vals)
+
+
+def fingerprint(P, clause, case=None):
     opts = []
     for k, dflt in DEFAULTS[P["kind"]].items():
         v = P.get(k, dflt)
@@ -403,6 +459,8 @@ def fingerprint(P, clause):
             opts.append(f"{k}={v}")
     if P["kind"] == "const":
         opts.append("stop_step<max_steps" if P["stop_step"] < P["max_steps"] else "stop_step>=max_steps")
+    if has_inf(case):
+        opts.append("objectives=inf")
     return f"C16|{clause}|{KINDS[P['kind']]}.stop|{','.join(opts) or 'defaults'}"
 
 
@@ -475,12 +533,20 @@ def shrink(case, clause, budget=400):
                     break
         if changed:
             continue
-        # objectives -> small integers keeping the order
-        vals = sorted({v for cur in best["curves"] for v in cur if is_num(v)})
+        # infinite objectives -> finite values beyond the range of the others (is the failure about infinities at all?)
+        vals = sorted({v for cur in best["curves"] for v in cur if is_num(v) and not is_inf(v)})
+        if any(is_inf(v) for cur in best["curves"] for v in cur):
+            lo, hi = (vals[0] - 1.0, vals[-1] + 1.0) if vals else (-1.0, 1.0)
+            c = copy.deepcopy(best)
+            c["curves"] = [[(lo if v < 0 else hi) if is_inf(v) else v for v in cur] for cur in c["curves"]]
+            if attempt(c):
+                changed = True
+                continue
+        # objectives -> small integers keeping the order (the infinities stay where they are)
         ranks = {v: float(i) for i, v in enumerate(vals)}
         if any(ranks[v] != v for v in vals):
             c = copy.deepcopy(best)
-            c["curves"] = [[ranks[v] if is_num(v) else v for v in cur] for cur in c["curves"]]
+            c["curves"] = [[ranks[v] if (is_num(v) and not is_inf(v)) else v for v in cur] for cur in c["curves"]]
             if attempt(c):
                 changed = True
     return best
@@ -569,12 +635,49 @@ def curve_families(rng, njobs, length, family):
                 if rng.random() < 0.3 and k + 1 < length:
                     base[k + 1] = "F"
             cs.append(base)
+    elif family == "infinite":
+        # runs that diverge: objective = -loss = -inf from some step on (a legal float and a competitor like any other),
+        # occasionally +inf; next to finite curves, so that infinite values sit below / above / among the finite ones
+        for j in range(njobs):
+            base = [grid(rng.uniform(0, 3)) for _ in range(length)]
+            x = rng.random()
+            if x < 0.45:
+                k = rng.randrange(length) if rng.random() < 0.6 else 0
+                base[k:] = [-INF] * (length - k)
+            elif x < 0.6:
+                k = rng.randrange(length) if rng.random() < 0.5 else 0
+                base[k:] = [INF] * (length - k)
+            elif x < 0.7:
+                base[rng.randrange(length)] = rng.choice([-INF, INF])
+            if rng.random() < 0.1:
+                base[rng.randrange(length)] = "F"
+            if rng.random() < 0.15:     # the same values as NumPy scalars (a loss computed in float32 overflows to inf earlier)
+                ty = rng.choice(["float64", "float32", "float16"])
+                base = [{"num": ty, "v": v} if is_num(v) else v for v in base]
+            cs.append(base)
+    elif family == "typed":
+        # few distinct levels (ties, exact top-k boundaries) x where the run fails, if it does: at a decision budget, between
+        # two decision budgets, never -- several evaluations of one search failing at different points of their curves
+        for j in range(njobs):
+            cs.append(typed_curve((rng.choice([0.0, 1.0, 1.0, 2.0, 3.0, -INF] if rng.random() < 0.3 else [0.0, 1.0, 2.0, 3.0]),
+                                   rng.choice([None, None, None] + list(range(2, length + 1)))), length))
     else:
         raise ValueError(family)
     return cs
 
 
-FAMILIES = ["monotone", "dominating", "crossing", "constant", "noisy", "failures", "numtypes"]
+INF = float("inf")
+
+
+def typed_curve(t, length):
+    """(level, failure budget or None) -> a constant curve at that level that fails at that budget"""
+    lv, fp = t
+    if fp is None or fp > length:
+        return [lv] * length
+    return [lv] * (fp - 1) + ["F"]
+
+
+FAMILIES = ["monotone", "dominating", "crossing", "constant", "noisy", "failures", "numtypes", "infinite", "typed"]
 
 
 def gen_params(rng, kind=None, max_steps=None):
@@ -665,6 +768,45 @@ def exhaustive_runs(P, curves, limit=None, rng=None):
             return
 
 
+# --------------------------------------------------------------------------- small typed worlds
+
+
+def world_length(P):
+    """budgets 1..L: two decision budgets and the budget after each (capped by max_steps and 9)"""
+    if P["kind"] not in ("sha", "median"):
+        return min(P["max_steps"], 4)
+    return max(1, min(P["max_steps"], decision_budget(P, 1) + 1, 9))
+
+
+def job_types(P, levels):
+    """(level, failure budget | None): constant curves at a few levels (ties, exact top-k / median boundaries) that never fail,
+    fail between two decision budgets, or fail exactly at the next decision budget -- after having passed the first one"""
+    L = world_length(P)
+    if P["kind"] in ("sha", "median"):
+        d0, d1 = decision_budget(P, 0), decision_budget(P, 1)
+        fps = sorted({b for b in (d0 + 1, d1, d1 + 1) if d0 < b <= L})
+    else:
+        fps = list(range(1, L + 1))
+    return [(lv, fp) for lv in levels for fp in [None] + fps]
+
+
+def typed_worlds(P, levels, nmax, interleave_upto=0):
+    """every ordered tuple of <= nmax typed jobs, run one after the other (and, for small tuples, also round-robin):
+    -> (curves, events, tag)"""
+    L = world_length(P)
+    types = job_types(P, levels)
+    for n in range(1, nmax + 1):
+        for tup in itertools.product(types, repeat=n):
+            curves = [typed_curve(t, L) for t in tup]
+            lengths = [len(c) for c in curves]
+            yield curves, sequential_events(n, lengths, lazy=False), "typed-sequential"
+            if 2 <= n <= interleave_upto:
+                evs = [["add"]] * n
+                for b in range(max(lengths)):
+                    evs += [["step", j] for j in range(n) if b < lengths[j]]
+                yield curves, evs, "typed-round-robin"
+
+
 def gen_scripts(rng, count):
     """raw record/stopped sequences, including off-protocol ones (L2 only)"""
     for _ in range(count):
@@ -686,7 +828,9 @@ def gen_scripts(rng, count):
                 if j < njobs:
                     b[j] = bj
                 o = grid(rng.uniform(-1, 3)) if rng.random() < 0.88 else "F"
-                if o != "F" and rng.random() < 0.3:
+                if o != "F" and rng.random() < 0.12:
+                    o = rng.choice([-INF, -INF, INF])
+                elif o != "F" and rng.random() < 0.3:
                     ty = rng.choice(NUMTYPES)
                     o = {"num": ty, "v": float(int(o)) if ty.startswith("int") else (float(o > 1) if ty == "bool" else o)}
                 script.append(["rec", j, bj, o])
@@ -700,24 +844,86 @@ def gen_scripts(rng, count):
 # --------------------------------------------------------------------------- the check
 
 
-def _cmp_trace(ck, case, real_trace, real_final, rep):
+def _cmp_trace(case, real_trace, real_final, rep):
+    """-> None (model and implementation agree on every event and on the final metadata) or the first difference"""
     mt = rep["trace"]
     if len(mt) != len(real_trace):
-        ck.mismatch(case, {"what": "trace length", "impl": len(real_trace), "model": len(mt)})
-        return False
+        return {"what": "trace length", "impl": len(real_trace), "model": len(mt)}
     for i, (a, m) in enumerate(zip(real_trace, mt)):
         if a["r"] != m["r"] or (a["md"] is not None and norm_md(m["md"]) != a["md"]):
-            ck.mismatch(case, {"event": i, "impl": a, "model": {"r": m["r"], "md": norm_md(m["md"])}})
-            return False
+            return {"event": i, "impl": a, "model": {"r": m["r"], "md": norm_md(m["md"])}}
         if "obj" in a and (norm_md({"o": m.get("obj")})["o"] != a["obj"] or m.get("step") != a["step"] or m.get("nobs") != a["nobs"]):
-            ck.mismatch(case, {"event": i, "what": "RunningJob.objective / stopper.step / len(observations)",
-                               "impl": {k: a[k] for k in ("obj", "step", "nobs")}, "model": {k: m.get(k) for k in ("obj", "step", "nobs")}})
-            return False
+            return {"event": i, "what": "RunningJob.objective / stopper.step / len(observations)",
+                    "impl": {k: a[k] for k in ("obj", "step", "nobs")}, "model": {k: m.get(k) for k in ("obj", "step", "nobs")}}
     mf = [norm_md(x) for x in rep["final"]]
     if mf != real_final:
-        ck.mismatch(case, {"what": "final metadata", "impl": real_final, "model": mf})
-        return False
-    return True
+        return {"what": "final metadata", "impl": real_final, "model": mf}
+    return None
+
+
+# The model describes MedianStopper AFTER the repair "an undefined median (middle values -inf, +inf) falls back to the lower
+# middle value" (branch fix-c16).  While that defect is an OPEN known finding of the tree under test, a disagreement on a
+# median run is attributed to it exactly when the model of the code BEFORE that repair (driver `"variant": "preNan"`, the
+# witness of Props/C16.lean) agrees with the implementation on the whole run; it is then counted, not reported.
+MEDIAN_NAN_FPS = ("C16|best-survives|MedianStopper.stop|min_competing=0,objectives=inf",
+                  "C16|reference|MedianStopper.stop|min_competing=0,objectives=inf")
+_OPEN = None
+_SEARCHED = False
+_MISMATCHED = []     # cases on which model and implementation disagreed (the scenarios `search` enumerates around)
+
+
+def _median_nan_open():
+    global _OPEN
+    if _OPEN is None:
+        fps = set()
+        files = [common.VERIF / "KNOWN_FINDINGS.json"] + sorted((common.VERIF / "known_findings.d").glob("*.json"))
+        for f in files:
+            try:
+                for e in json.loads(f.read_text()).get("open", []):
+                    if e.get("property") == "C16":
+                        fps.add(e.get("fingerprint"))
+            except (OSError, ValueError):
+                pass
+        _OPEN = any(fp in fps for fp in MEDIAN_NAN_FPS)
+    return _OPEN
+
+
+def _settle(sink, ask_all, items):
+    """items: [(case, real trace, real final | "check", request, reply)] -> cross-checks and correspondence reports"""
+    doubtful = []
+    for case, trace, final, req, rep in items:
+        if final == "check":
+            cross_check(sink, case, case["P"], trace, rep)
+            continue
+        diff = _cmp_trace(case, trace, final, rep)
+        if diff is None:
+            continue
+        if case["P"]["kind"] == "median" and has_inf(case) and _median_nan_open():
+            doubtful.append((case, trace, final, req, diff))
+        else:
+            sink.mismatch(case, diff)
+    if doubtful:
+        reps = ask_all([dict(d[3], variant="preNan") for d in doubtful])
+        for (case, trace, final, req, diff), rep in zip(doubtful, reps):
+            if _cmp_trace(case, trace, final, rep) is None:
+                sink.count("L2_explained_by_known_finding:median-undefined")
+            else:
+                sink.mismatch(case, diff)
+
+
+class _CkSink:
+    """correspondence reports of the main process: also remembered for `search`"""
+
+    def __init__(self, ck):
+        self.ck = ck
+
+    def mismatch(self, case, detail):
+        if len(_MISMATCHED) < 200:
+            _MISMATCHED.append(case)
+        self.ck.mismatch(case, detail)
+
+    def count(self, k, n=1):
+        self.ck.count(k, n)
 
 
 def _judge(ck_count, ck_hist, P, case, steps, final, report):
@@ -754,7 +960,7 @@ def _explore(ck, P, curves, events, tag, pending):
     for s in steps:
         ck.count("decision:" + str(s[3]))
     _judge(ck.count, ck.hist, P, case, steps, final,
-           lambda clause, small, detail: ck.fail(fingerprint(small["P"], clause), f"{KINDS[P['kind']]}: clause '{clause}' fails", small, detail))
+           lambda clause, small, detail: ck.fail(fingerprint(small["P"], clause, small), f"{KINDS[P['kind']]}: clause '{clause}' fails", small, detail))
     pending.append((case, trace, final, {"op": "proto", "P": wire_P(P), "events": wire_events}))
     q = check_request(P, steps)
     if q is not None:
@@ -796,11 +1002,7 @@ def _flush(ck, drv, pending):
     if not pending:
         return
     reps = drv.ask_all([p[3] for p in pending])
-    for (case, trace, final, _), rep in zip(pending, reps):
-        if final == "check":
-            cross_check(ck, case, case["P"], trace, rep)
-        else:
-            _cmp_trace(ck, case, trace, final, rep)
+    _settle(_CkSink(ck), drv.ask_all, [(case, trace, final, req, rep) for (case, trace, final, req), rep in zip(pending, reps)])
     pending.clear()
 
 
@@ -875,12 +1077,17 @@ def run(ck):
     ck.rule = ("stoppers {Idle, Constant, SuccessiveHalving, Median} x parameters of the property's quantifier "
                "(max_steps {4,9,27}, min_steps {1,2,3}, reduction_factor {2,3,4}, min_early_stopping_rate {0,1}, interval_steps {1,2,3}, "
                "min_competing {0..3}, min_fully_completed {0,1,2}, epsilon {1e-10, 0, 0.25}) x curve families "
-               "(monotone, dominating, crossing, constant, noisy, failures; values on a 1/8 grid so that float and exact arithmetic agree) "
+               "(monotone, dominating, crossing, constant, noisy, failures, numeric types, infinite = runs diverging to -inf / reporting +inf, "
+               "typed = few levels x failure points; finite values on a 1/8 grid so that float and exact arithmetic agree) "
                "x 1..6 jobs x {sequential lazy/up-front, every step-interleaving (<=3 jobs x <=4 steps), random staggered interleavings}; "
+               "plus every ordered tuple of <=3 (thorough: <=4) typed evaluations (levels that tie or differ by one, -inf / +inf; never failing, "
+               "failing between two decision budgets, failing exactly at a decision budget after having passed one), sequential and round-robin; "
                "plus raw record/stopped scripts incl. off-protocol ones; distinct by canonical (params, curves, events); "
                "non-trivial = at least 2 jobs and 3 steps")
     ck.assumptions = [
-        "objectives are finite floats on a 1/8 grid or non-Number failure markers (no nan/inf); epsilon in {1e-10, 0, 0.25}: float `x + eps >= t` then equals the exact comparison",
+        "objectives are finite floats on a 1/8 grid, -inf / +inf, or non-Number failure markers; epsilon in {1e-10, 0, 0.25}: float `x + eps >= t` then equals the comparison in the extended order",
+        "nan objectives are outside the property ('at least as good as' presupposes an order; nan has none) and are not generated",
+        "an evaluation that failed after recording at a budget: counted as a competitor there or not, whichever reading lets the implementation pass (the property text leaves it open)",
         "budgets are the integers 1,2,3,... (protocol runs); parameters are integers with reduction_factor >= 2, min_steps >= 1, interval_steps >= 1 in the theorems",
         "np.sort / np.median are modelled (merge sort, middle element / mean of the two middle elements), validated by the correspondence run",
         "metadata keys are structured in the model; the injectivity of their textual rendering is C13's theorem",
@@ -888,6 +1095,13 @@ def run(ck):
     ]
     ck.trusted_extra = ["reference statement of the ASHA / median rules and the five oracle clauses in harness/c16.py"]
     rng = ck.rng
+    t_sec = time.time()
+
+    def lap(name):
+        nonlocal t_sec
+        ck.extra_cov.setdefault("section_seconds", {})[name] = round(time.time() - t_sec, 1)
+        t_sec = time.time()
+
     with ck.driver() as drv:
         _corpus(ck, drv)
         pending = []
@@ -908,18 +1122,22 @@ def run(ck):
                     for fam in FAMILIES:
                         if P["kind"] in ("const", "idle") and (fam not in ("failures", "numtypes") or nj > 2):
                             continue
-                        if (nj, ln) == (3, 4) and (P not in key_params or fam not in ("dominating", "crossing", "failures")):
+                        if (nj, ln) == (3, 4) and (P not in key_params or fam not in ("dominating", "crossing", "failures", "infinite", "typed")):
                             continue
                         ex_plan.append((P, nj, ln, fam, rng.randrange(1 << 30), 12000))
         else:
             for P in key_params + more_params:
-                for fam in ("dominating", "crossing", "failures", "numtypes"):
+                for fam in ("dominating", "crossing", "failures", "numtypes", "infinite"):
                     if P["kind"] in ("const", "idle") and fam not in ("failures", "numtypes"):
                         continue
-                    ex_plan.append((P, 2, 4, fam, rng.randrange(1 << 30), 800))
+                    if fam == "infinite" and P not in key_params + more_params[:2]:
+                        continue
+                    ex_plan.append((P, 2, 4, fam, rng.randrange(1 << 30), 200 if fam == "infinite" else 800))
             for P in key_params + more_params[:4]:
-                for fam in ("dominating", "crossing", "failures"):
-                    ex_plan.append((P, 3, 3, fam, rng.randrange(1 << 30), 800))
+                for fam in ("dominating", "crossing", "failures", "infinite"):
+                    if fam == "infinite" and P not in key_params:
+                        continue
+                    ex_plan.append((P, 3, 3, fam, rng.randrange(1 << 30), 200 if fam == "infinite" else 800))
         if ck.thorough:
             with ProcessPoolExecutor(max_workers=min(14, os.cpu_count() or 2)) as pool:
                 for res in pool.map(_ex_worker, ex_plan, chunksize=1):
@@ -927,6 +1145,20 @@ def run(ck):
         else:
             for item in ex_plan:
                 _fold(ck, _ex_worker(item, drv))
+        lap("exhaustive-interleavings")
+        # (a') small typed worlds: every ordered tuple of evaluations that are tied / apart by one level, and that never fail,
+        # fail between two decision budgets or fail exactly at a decision budget after having passed one
+        m2, m0, s2, s3 = key_params
+        typed_plan = [(m2, [0.0, 1.0, 2.0], 3, 2), (m0, [0.0, 1.0, 2.0], ck.pick(3, 4), 2), (s2, [0.0, 1.0, 2.0], ck.pick(3, 4), 2),
+                      (s3, [0.0, 1.0, 2.0], ck.pick(2, 3), 2)]
+        typed_plan += [(P, ck.pick([0.0, -INF, INF], [0.0, 1.0, -INF, INF]), ck.pick(2, 3), 2) for P in key_params]
+        for P, levels, nmax, il in typed_plan:
+            for curves, evs, tag in typed_worlds(P, levels, nmax, il):
+                _explore(ck, P, curves, evs, tag, pending)
+                if len(pending) >= 400:
+                    _flush(ck, drv, pending)
+        _flush(ck, drv, pending)
+        lap("typed-worlds")
         # (b) sequential + random interleavings, larger systems
         nrand = ck.pick(700, 5000)
         for t in range(nrand):
@@ -946,12 +1178,19 @@ def run(ck):
             _explore(ck, P, curves, evs, tag, pending)
             if len(pending) >= 200:
                 _flush(ck, drv, pending)
+        lap("random-systems")
         # (c) raw scripts (off-protocol included): correspondence only
         for P, script in gen_scripts(rng, ck.pick(800, 4000)):
             _script_case(ck, P, script, pending)
             if len(pending) >= 200:
                 _flush(ck, drv, pending)
         _flush(ck, drv, pending)
+        lap("raw-scripts")
+    # main.py starts the deeper search only when `run` reported no failure at all; failures that are OPEN known findings of
+    # the tree must not keep a broken correspondence from being searched
+    open_fps = {e.get("fingerprint") for e in ck.known.get("open", []) if e.get("property") == "C16"}
+    if ck.mismatches and ck.failures and all(f["fingerprint"] in open_fps for f in ck.failures):
+        search(ck)
 
 
 def _ex_worker(item, drv=None):
@@ -1008,12 +1247,6 @@ def _ex_worker(item, drv=None):
     else:
         cnt("exhaustive-complete-systems")
     if reqs:
-        if drv is not None:
-            reps = drv.ask_all(reqs)
-        else:
-            with common.LeanDriver("C16") as own:
-                reps = own.ask_all(reqs)
-
         class _Sink:
             def mismatch(self, case, detail):
                 if len(res["mismatch"]) < 3:
@@ -1023,12 +1256,15 @@ def _ex_worker(item, drv=None):
             def count(self, k, n=1):
                 cnt(k, n)
 
-        sink = _Sink()
-        for (case, trace, final), rep in zip(metas, reps):
-            if final == "check":
-                cross_check(sink, case, P, trace, rep)
-            else:
-                _cmp_trace(sink, case, trace, final, rep)
+        def settle(ask_all):
+            reps = ask_all(reqs)
+            _settle(_Sink(), ask_all, [(case, trace, final, req, rep) for (case, trace, final), req, rep in zip(metas, reqs, reps)])
+
+        if drv is not None:
+            settle(drv.ask_all)
+        else:
+            with common.LeanDriver("C16") as own:
+                settle(own.ask_all)
     return res
 
 
@@ -1039,9 +1275,138 @@ def _fold(ck, res):
         if k != "L2_mismatch_raw" and not k.startswith("shrunk:"):
             ck.count(k, n)
     for case, detail in res["mismatch"]:
-        ck.mismatch(case, detail)
+        _CkSink(ck).mismatch(case, detail)
     for clause, small, detail in res["fails"]:
-        ck.fail(fingerprint(small["P"], clause), f"{KINDS[small['P']['kind']]}: clause '{clause}' fails", small, detail)
+        ck.fail(fingerprint(small["P"], clause, small), f"{KINDS[small['P']['kind']]}: clause '{clause}' fails", small, detail)
+
+
+# --------------------------------------------------------------------------- deeper failing-input search
+
+
+def _canonical_params(kind):
+    """the smallest legal parameters of a kind: with reduction_factor 2 / min_competing 0 the top-k and median boundaries move
+    with every single competitor, so few evaluations suffice for a witness"""
+    if kind == "sha":
+        return [{"kind": "sha", "max_steps": 4, "min_steps": 1, "rf": 2, "mesr": 0, "min_competing": 0, "min_fully_completed": 0, "eps": EPS_DEFAULT}]
+    if kind == "median":
+        return [{"kind": "median", "max_steps": 4, "min_steps": 1, "interval": 1, "min_competing": mc, "eps": EPS_DEFAULT} for mc in (0, 2)]
+    if kind == "const":
+        return [{"kind": "const", "max_steps": 4, "stop_step": 2}, {"kind": "const", "max_steps": 4, "stop_step": 9}]
+    return [{"kind": "idle", "max_steps": 4}]
+
+
+def search(ck):
+    """Called by main.py when L1 / L2 broke and `run` found no failing input of the PROPERTY.  The scenarios on which model and
+    implementation disagreed (`_MISMATCHED`) say where the implementation changed: which stopper, with which parameters, and
+    which stopper, with which parameters.  Around them the search enumerates, on the REAL code only (decisions only, no model),
+    every ordered tuple of typed evaluations (`job_types`: levels that tie or differ by one, evaluations that never fail / fail
+    between two decision budgets / fail exactly at a decision budget after having passed one; then the levels -inf / +inf; then
+    both), up to 4-5 evaluations, run one after the other and round-robin, then random larger tuples and interleavings -- first
+    for the smallest legal parameters of that stopper (reduction_factor 2, min_competing 0: the top-k / median boundary moves
+    with every single competitor), then for the parameters of the disagreeing scenarios themselves -- and judges every run with
+    the property oracle.  Bounded by VERIF_C16_SEARCH_S seconds (default 150), split evenly over the parameter sets."""
+    global _SEARCHED
+    if _SEARCHED:
+        return
+    _SEARCHED = True
+    _quiet()
+    t0 = time.time()
+    budget = float(os.environ.get("VERIF_C16_SEARCH_S", "150"))
+    cases = list(_MISMATCHED)
+    kinds = []
+    for c in cases:
+        if c["P"]["kind"] not in kinds:
+            kinds.append(c["P"]["kind"])
+    if not kinds:
+        kinds = ["sha", "median", "const", "idle"]      # nothing to go by (L1 broke, or the harness could not drive the code)
+    worlds = []
+    for kind in kinds:
+        own = []
+        for c in cases:
+            P = dict(c["P"])
+            if P["kind"] != kind or P.get("rf", 2) < 2 or P.get("interval", 1) < 1 or P.get("min_steps", 1) < 1:
+                continue
+            P["max_steps"] = min(P["max_steps"], max(4, world_length(P)))
+            if P not in own and len(own) < 3:
+                own.append(P)
+        for P in _canonical_params(kind) + own:
+            if P not in worlds:
+                worlds.append(P)
+    ck.count("search:worlds", len(worlds))
+    found = set()
+    rng = ck.rng
+    n_runs = 0
+
+    def try_world(P, curves, evs):
+        """one run on the real code (decisions only); on an oracle failure: full run, shrink, report"""
+        nonlocal n_runs
+        n_runs += 1
+        _, final, steps, _ = run_proto_real(P, curves, evs, light=True)
+        if not oracle(P, steps, final):
+            return False
+        case = {"P": P, "curves": curves, "events": evs}
+        _, final, steps, _ = run_proto_real(P, curves, evs)     # full run: stored metadata for the alignment clause
+        ck.case(case, nontrivial=len(curves) >= 2)
+        ck.count("schedule:search-typed-world")
+        _judge(ck.count, ck.hist, P, case, steps, final,
+               lambda clause, small, detail: ck.fail(fingerprint(small["P"], clause, small),
+                                                     f"{KINDS[P['kind']]}: clause '{clause}' fails", small, detail))
+        return True
+
+    def schedules(curves):
+        n, lengths = len(curves), [len(c) for c in curves]
+        yield sequential_events(n, lengths, lazy=False)
+        if 2 <= n <= 3:
+            evs = [["add"]] * n
+            for b in range(max(lengths)):
+                evs += [["step", j] for j in range(n) if b < lengths[j]]
+            yield evs
+
+    for wi, P in enumerate(worlds):
+        left = budget - (time.time() - t0)
+        if left <= 1:
+            break
+        if P["kind"] in found:
+            continue
+        t_end = time.time() + left / (len(worlds) - wi)
+        L = world_length(P)
+        fin, full = [0.0, 1.0, 2.0], [0.0, 1.0, 2.0, -INF, INF]
+        all_types = job_types(P, full)
+        small = P["kind"] in ("const", "idle")
+        # alphabets from plain to rich: finite levels x failure points; all levels, no failures; everything
+        stages = [(job_types(P, fin), 2 if small else 4), ([t for t in all_types if t[1] is None], 2 if small else 5),
+                  (all_types, 2 if small else 3)]
+        hit = False
+        seen_alpha = []
+        for types, nmax in stages:
+            for n in range(1, nmax + 1):
+                for tup in itertools.product(types, repeat=n):
+                    if time.time() > t_end or hit:
+                        break
+                    if any(all(t in a for t in tup) and n <= m for a, m in seen_alpha):
+                        continue        # already enumerated with a smaller alphabet
+                    curves = [typed_curve(t, L) for t in tup]
+                    for evs in schedules(curves):
+                        if try_world(P, curves, evs):
+                            hit = True
+                            break
+                if time.time() > t_end or hit:
+                    break
+            seen_alpha.append((set(types), nmax))
+            if time.time() > t_end or hit:
+                break
+        # beyond the enumerated sizes: random larger tuples, random interleavings
+        while not hit and not small and time.time() < t_end:
+            n = rng.randint(4, 6)
+            curves = [typed_curve(rng.choice(all_types), L) for _ in range(n)]
+            lengths = [len(c) for c in curves]
+            evs = sequential_events(n, lengths, lazy=False) if rng.random() < 0.5 else random_interleaving(rng, n, lengths, rng.choice([0.0, 0.3]))
+            hit = try_world(P, curves, evs)
+        if hit:
+            found.add(P["kind"])
+    ck.count("search:runs", n_runs)
+    ck.extra_cov["search"] = {"seconds": round(time.time() - t0, 1), "worlds": len(worlds), "kinds": kinds, "runs": n_runs,
+                              "mismatching_scenarios": len(cases), "found_for": sorted(found)}
 
 
 def replay(ck, case):
